@@ -11,7 +11,7 @@ SRC = [os.path.join(ROOT, "engine", "trapvm", f) for f in ("c12.c", "trapvm.c", 
 
 
 def build():
-    common.cc(BIN, SRC[:2], ["-O1", "-g", "-Wall", "-Wno-unused-function", "-pthread", "-rdynamic"], deps=SRC[2:])
+    common.cc(BIN, SRC[:2], ["-O1", "-g", "-Wall", "-Wno-unused-function", "-pthread", "-rdynamic"], deps=SRC[2:] + [os.path.join(ROOT, "engine", "denylist.h")])
     return BIN
 
 
